@@ -13,6 +13,9 @@ def check(run):
     quick = run.tier == "quick"
     zkh = run.harness()
     seeds = [b"", b"\x00", bytes(range(10)), b"A seed phrase example", bytes(135), bytes(136), bytes(137), bytes(272), bytes([0xff]) * 33]
+    # seeds that LOOK like framed data: an 8-byte little-endian count followed by exactly that many bytes (the framing other byte
+    # vectors use), 32-byte encodings of small numbers, C strings with their terminator — a seed is opaque bytes, nothing is stripped
+    seeds += [le(3, 8) + b"abc", le(24, 32), le(1, 8) + b"\xff", le(0, 8), le(8, 8) + le(5, 8), le(56, 64), b"seed\x00", b"\x00seed", le(32, 8) + bytes(range(32))]
     seeds += [bytes(rng.getrandbits(8) for _ in range(rng.choice([1, 2, 31, 32, 33, 64, 100, 200]))) for _ in range(60 if quick else 600)]
     if not quick:
         seeds.append(bytes(rng.getrandbits(8) for _ in range(10000)))
